@@ -13,6 +13,12 @@ import (
 type CombineResult struct {
 	BindingContexts []bctx.BindingContext
 	MonitorIDs      []string
+	// AllowFailure is false if any of the merged tasks does not allow failure.
+	AllowFailure bool
+}
+
+type allowFailureAccessor interface {
+	GetAllowFailure() bool
 }
 
 // combineBindingContextForHook combines binding contexts from a sequence of task with similar
@@ -79,7 +85,11 @@ func (op *ShellOperator) combineBindingContextForHook(tqs *queue.TaskQueueSet, q
 	// current task always remain in queue
 	combinedContext = append(combinedContext, taskMeta.(BindingContextAccessor).GetBindingContext()...)
 	tasksFilter[t.GetId()] = true
+	res.AllowFailure = true
 	for _, tsk := range otherTasks {
+		if af, ok := tsk.GetMetadata().(allowFailureAccessor); ok && !af.GetAllowFailure() {
+			res.AllowFailure = false
+		}
 		combinedContext = append(combinedContext, tsk.GetMetadata().(BindingContextAccessor).GetBindingContext()...)
 		tskMonitorIDs := tsk.GetMetadata().(MonitorIDAccessor).GetMonitorIDs()
 		if len(tskMonitorIDs) > 0 {
